@@ -77,7 +77,7 @@ def objective_termwise(rec, name, assume, R, lp, xe, sub, direction):
     if any(not lpsem.is_zero_term(z3.simplify(lp.c[i])) for i in unmapped):
         return False
     s = z3.Solver()
-    s.set('timeout', 20000)
+    s.set('timeout', 5000)
     s.add(*assume)
     t0 = _t.time()
     ok = True
